@@ -1,4 +1,6 @@
 import CookModel.Analysis.Collector
+import CookModel.Lemmas.Determinism
+import CookModel.Lemmas.DeterminismLocs
 /-
   C18  Parsing is deterministic, stateless across calls and thread-safe.
 
@@ -8,6 +10,17 @@ import CookModel.Analysis.Collector
   logical threads on one shared instance, is the reply of a fresh instance.  What the model cannot
   exhibit (said in the evidence): data races, memory-model effects, hash-seed dependence inside
   dependencies; those are only observed (threads sharing one parser, a second process).
+
+  ADDED (audit): the "hash-order must not leak" clause of the anchors, which the instance model above
+  cannot express because a pure function has no hidden order:
+  * the converter's `UnitIndex` (a `HashMap` that parsing only looks up): the parse result is the same
+    for every order of the entries of the index and for every order in which they were inserted
+    (`C18_unit_index_order_irrelevant`, `C18_unit_index_insertion_order_irrelevant`); the same for a
+    case-folding table given as an association list (`C18_fold_table_order_irrelevant`);
+  * the collector's `locations.metadata` (a `HashMap` that is written during the parse): a fold in which
+    the entries of that map are re-enumerated in an arbitrary order after EVERY event returns the same
+    diagnostics, the same panic flag and the same recipe (`C18_locations_map_order_irrelevant`);
+  * both entry points (`parse`, `parse_metadata`) in one history (`C18_history_independent_mixed`).
 -/
 namespace Cook
 variable {α : Type} [Arith α]
@@ -74,5 +87,147 @@ theorem C18_interleaving_irrelevant (i : Instance) (cs : List Call) (t : Nat) :
 theorem C18_repeatable (i : Instance) (x : Str) :
     ((i.parse (α := α) x).1.parse (α := α) x).2 = (i.parse (α := α) x).2 := by
   simp [Instance.parse]
+
+/-! ### hash maps: the order of the entries does not leak -/
+
+open Bld in
+/-- **The order of the unit index does not leak.**  `Converter::find_unit` goes through `UnitIndex`, a
+    `HashMap<Arc<str>, usize>` (model: the association list `Bld.Index` read with `Bld.idxGet`), then
+    through the unit's physical quantity (`pqOf`).  For two enumerations `idx`, `idx'` of the same
+    entries (a permutation; keys unique, as `add_unit` guarantees) the parser with the one index and the
+    parser with the other return the same result — recipe, diagnostics, panic flag — on every input. -/
+theorem C18_unit_index_order_irrelevant (base : Env) (pqOf : Nat → Option Nat) (idx idx' : Index)
+    (hp : idx.Perm idx') (hu : (idx.map (·.1)).Nodup) (input : Str) :
+    parseRecipe (α := α) (envWithIndex base idx pqOf) input = parseRecipe (envWithIndex base idx' pqOf) input := by
+  rw [det_envWithIndex_perm base pqOf hp hu]
+
+open Bld in
+/-- **The insertion order of the unit index does not leak.**  Two indexes built with `HashMap::insert`
+    (`idxInsert`: a new value replaces an old one) from the same entries with pairwise different keys,
+    inserted in two different orders, answer every `get` alike; hence the parse results are equal. -/
+theorem C18_unit_index_insertion_order_irrelevant (base : Env) (pqOf : Nat → Option Nat) (l l' : List (Key × Nat))
+    (hp : l.Perm l') (hu : (l.map (·.1)).Nodup) (input : Str) :
+    (∀ k, idxGet (l.foldl idxInsert []) k = idxGet (l'.foldl idxInsert []) k) ∧
+    parseRecipe (α := α) (envWithIndex base (l.foldl idxInsert []) pqOf) input =
+      parseRecipe (envWithIndex base (l'.foldl idxInsert []) pqOf) input := by
+  have h := det_idxGet_insertion_order l l' hp hu
+  refine ⟨h, ?_⟩
+  have : envWithIndex base (l.foldl idxInsert []) pqOf = envWithIndex base (l'.foldl idxInsert []) pqOf := by
+    unfold envWithIndex
+    congr 1
+    funext k
+    rw [h k]
+  rw [this]
+
+/-- the environment the differential runs use for the bundled converter (`realEnv … 1` in Driver/Syntax.lean
+    sets `findUnit := bundledFindUnit`) reads its units through exactly such an index: `bundledFindUnit` is
+    `idxGet` on the generated key table, so `C18_unit_index_order_irrelevant` speaks about the modelled
+    converter (for any enumeration of that table with unique keys) -/
+theorem C18_bundled_find_unit_is_index_lookup (base : Env) :
+    ({ base with findUnit := bundledFindUnit } : Env) = envWithIndex base unitKeyTable some := by
+  unfold envWithIndex
+  congr 1
+  funext k
+  rw [det_bundledFindUnit_eq]
+  cases Bld.idxGet unitKeyTable k <;> rfl
+
+/-- the same for a case-folding table given as an association list with unique keys -/
+theorem C18_fold_table_order_irrelevant (base : Env) (tbl tbl' : List (Char × List Char)) (hp : tbl.Perm tbl')
+    (hu : (tbl.map (·.1)).Nodup) (input : Str) :
+    parseRecipe (α := α) (envWithFoldTable base tbl) input = parseRecipe (envWithFoldTable base tbl') input := by
+  rw [det_envWithFoldTable_perm base hp hu]
+
+/-! non-vacuity: two orders of a two-entry index; with a repeated key the order does matter (the
+    hypothesis `Nodup` is needed for association lists; a `HashMap` has unique keys by construction) -/
+example : ([("g".toList, 0), ("kg".toList, 1)] : Bld.Index).Perm [("kg".toList, 1), ("g".toList, 0)] ∧
+    (([("g".toList, 0), ("kg".toList, 1)] : Bld.Index).map (·.1)).Nodup := by
+  refine ⟨List.Perm.swap _ _ _, by decide⟩
+example : Bld.idxGet [("g".toList, 0), ("g".toList, 1)] "g".toList ≠ Bld.idxGet [("g".toList, 1), ("g".toList, 0)] "g".toList := by
+  decide
+example : Bld.idxGet ([("g".toList, 0), ("kg".toList, 1)].foldl idxInsert []) "g".toList = some 0 := by decide
+
+/-- **The order of `locations.metadata` does not leak.**  The collector keeps the source locations of
+    the standard metadata keys in a `HashMap<StdKey, _>` (model: the association list `metaLocs`); it
+    inserts into it, removes from it and looks keys up (the time-override check collects by key and
+    sorts by position).  `parseRecipeO shuffle` is `parse` where after EVERY event the entries of that
+    map are put into the order `shuffle i` chooses.  For every choice of orders (`shuffle i m` a
+    permutation of `m`) and every input: the diagnostics (kinds, labels, order) are those of `parse`,
+    the panic flag is the same, and the returned recipe is the same in every field — the map itself,
+    which is not part of the result, is compared as a set (`setLocs []` forgets it). -/
+theorem C18_locations_map_order_irrelevant (shuffle : Nat → List (StdKey × Span) → List (StdKey × Span))
+    (hsh : ∀ i m, (shuffle i m).Perm m) (env : Env) (input : Str) :
+    (parseRecipeO (α := α) shuffle env input).diags = (parseRecipe (α := α) env input).diags ∧
+    (parseRecipeO (α := α) shuffle env input).panic = (parseRecipe (α := α) env input).panic ∧
+    (parseRecipeO (α := α) shuffle env input).output.map (setLocs []) = (parseRecipe env input).output.map (setLocs []) := by
+  obtain ⟨h1, h2, h3⟩ := detl_parseEvents (α := α) shuffle hsh env input (pullEvents (α := α) env.cs env.ext input).1.toList
+  unfold parseRecipeO parseRecipe
+  refine ⟨h1.symm, ?_, ?_⟩
+  · simp only [h2]; rfl
+  · simp only
+    generalize (parseEvents env input (pullEvents (α := α) env.cs env.ext input).1.toList).output = o at h3
+    generalize (parseEventsO shuffle env input (pullEvents (α := α) env.cs env.ext input).1.toList).output = o' at h3
+    cases o <;> cases o' <;> simp only [Option.map_some, Option.map_none] at h3 ⊢
+    rw [detl_forget h3]
+
+/-- the same for `parse_metadata` (the metadata-only entry point runs the same collector over the metadata
+    events): re-enumerating `locations.metadata` after every event changes neither the diagnostics nor the
+    panic flag nor any field of the returned state other than the order of that map -/
+theorem C18_locations_map_order_irrelevant_metadata (shuffle : Nat → List (StdKey × Span) → List (StdKey × Span))
+    (hsh : ∀ i m, (shuffle i m).Perm m) (env : Env) (input : Str) :
+    (parseMetadataO (α := α) shuffle env input).diags = (parseMetadata (α := α) env input).diags ∧
+    (parseMetadataO (α := α) shuffle env input).panic = (parseMetadata (α := α) env input).panic ∧
+    (parseMetadataO (α := α) shuffle env input).output.map (setLocs []) =
+      (parseMetadata env input).output.map (setLocs []) := by
+  obtain ⟨h1, h2, h3⟩ := detl_parseEvents (α := α) shuffle hsh env input (pullMetaEvents (α := α) env.cs env.ext input).1.toList
+  unfold parseMetadataO parseMetadata
+  refine ⟨h1.symm, ?_, ?_⟩
+  · simp only [h2]; rfl
+  · simp only
+    generalize (parseEvents env input (pullMetaEvents (α := α) env.cs env.ext input).1.toList).output = o at h3
+    generalize (parseEventsO shuffle env input (pullMetaEvents (α := α) env.cs env.ext input).1.toList).output = o' at h3
+    cases o <;> cases o' <;> simp only [Option.map_some, Option.map_none] at h3 ⊢
+    rw [detl_forget h3]
+
+/-- every event keeps "same map entries in another order": the step of the theorem above -/
+theorem C18_locations_map_order_step (env : Env) (input : Str) (ev : Ev α) (s s' : Col α) (h : Rl s s') :
+    Rl (processEvent env input ev s).2 (processEvent env input ev s').2 :=
+  ((ni_processEvent env input ev).run s s' h).2
+
+/-! non-vacuity: reversing is a permutation; two states that differ in the order of two entries are
+    related, and the time-override check (which reads the map) gives them the same warning -/
+example : ∀ (_ : Nat) (m : List (StdKey × Span)), (m.reverse).Perm m := fun _ m => List.reverse_perm m
+private def exLocs : Col Rat := { metaLocs := [(.prepTime, ⟨0, 5⟩), (.cookTime, ⟨6, 9⟩)] }
+example : Rl exLocs (setLocs [(.cookTime, ⟨6, 9⟩), (.prepTime, ⟨0, 5⟩)] exLocs) :=
+  ⟨_, rfl, List.Perm.swap _ _ _, by decide⟩
+example : (metadataA (α := Rat) ⟨⟨fun c => c == ' ', fun _ => false, fun _ => true, fun c => c == ' ', fun _ => true⟩,
+      ⟨0⟩, fun _ => none, fun _ _ => .ok, fun c => [c], 0⟩
+      ⟨[⟨"time".toList, 10, false⟩], 10, false⟩ ⟨[⟨"1h".toList, 16, false⟩], 16, false⟩ exLocs).2.diags.toList.map (·.kind) =
+    ["time-overridden"] := by decide
+
+/-! ### both entry points in one history -/
+
+/-- a request to a parser instance: `parse` or `parse_metadata` -/
+inductive Req where
+  | parse (input : Str)
+  | parseMeta (input : Str)
+
+def Instance.serve (i : Instance) : Req → Instance × AnalysisResult α
+  | .parse x => ({ i with tableBuilt := true }, parseRecipe i.env x)
+  | .parseMeta x => ({ i with tableBuilt := true }, parseMetadata i.env x)
+
+def Instance.runReqs (i : Instance) : List Req → Instance
+  | [] => i
+  | r :: rs => Instance.runReqs ((i.serve (α := α) r).1) rs
+
+theorem Instance.runReqs_env (i : Instance) (h : List Req) : (Instance.runReqs (α := α) i h).env = i.env := by
+  induction h generalizing i with
+  | nil => rfl
+  | cons r rs ih => cases r <;> simp [Instance.runReqs, ih, Instance.serve]
+
+/-- after any history that mixes `parse` and `parse_metadata` calls, either entry point answers as a
+    fresh instance would -/
+theorem C18_history_independent_mixed (i : Instance) (h : List Req) (r : Req) :
+    ((Instance.runReqs (α := α) i h).serve (α := α) r).2 = (({ i with tableBuilt := false } : Instance).serve (α := α) r).2 := by
+  cases r <;> simp [Instance.serve, Instance.runReqs_env]
 
 end Cook
